@@ -497,7 +497,9 @@ void Annotator::AnnotatorImpl::update()
 {
     removeAllIssues();
     size_t hash = generateHash();
-    if (mHash != hash) {
+    // Without a (living) model the hash is 0, which is also the value that marks the
+    // list as out of date: always rebuild (that is: empty) the list in that case.
+    if ((mHash != hash) || mModel.expired()) {
         buildIdList();
         mHash = hash;
     }
